@@ -81,19 +81,20 @@ def run(chk):
         dkmax = rng.choice([None, 2])
         par = oqupy.TempoParameters(dt=0.1, epsrel=eps, dkmax=dkmax)
         method = rng.choice(["tempo", "pttempo", "meanfield"])
-        info = {"kind": "covariance", "method": method, "d": d, "eigenvalues": ev, "dkmax": dkmax}
+        unique = rng.random() < 0.5
+        info = {"kind": "covariance", "method": method, "d": d, "eigenvalues": ev, "dkmax": dkmax, "unique": unique}
 
         def solve(Hh, Oo, rr):
             bath = oqupy.Bath((Oo + Oo.conj().T) / 2, _corr)
             if method == "tempo":
-                return np.array(quiet(oqupy.Tempo(oqupy.System(Hh), bath, par, rr, 0.0).compute, 0.4, progress_type="silent").states)
+                return np.array(quiet(oqupy.Tempo(oqupy.System(Hh), bath, par, rr, 0.0, unique=unique).compute, 0.4, progress_type="silent").states)
             if method == "pttempo":
-                pt = quiet(oqupy.pt_tempo_compute, bath, 0.0, 0.4, parameters=par, progress_type="silent")
+                pt = quiet(oqupy.pt_tempo_compute, bath, 0.0, 0.4, parameters=par, unique=unique, progress_type="silent")
                 return np.array(quiet(oqupy.compute_dynamics, oqupy.System(Hh), initial_state=rr, process_tensor=pt, progress_type="silent").states)
             X = Hh
             s = oqupy.TimeDependentSystemWithField(lambda t, f: X + 0.1 * f.real * X @ X)
             mfs = oqupy.MeanFieldSystem([s], field_eom=lambda t, st, f: -0.1 * f + 0.2 * np.trace(st[0] @ X))
-            dyn = quiet(oqupy.MeanFieldTempo(mfs, [bath], par, [rr], 0.2 + 0j, 0.0).compute, 0.4, progress_type="silent")
+            dyn = quiet(oqupy.MeanFieldTempo(mfs, [bath], par, [rr], 0.2 + 0j, 0.0, unique=unique).compute, 0.4, progress_type="silent")
             return np.array(dyn.system_dynamics[0].states)
         try:
             base = solve(H, O, rho0)
@@ -104,7 +105,7 @@ def run(chk):
         back = np.array([V.conj().T @ s @ V for s in rotd])
         chk.search_cases += 1
         chk.count("cov_" + method)
-        chk.case(info, ("cov", method, d, tuple(ev), dkmax))
+        chk.case(info, ("cov", method, d, tuple(ev), dkmax, unique))
         if np.abs(back - base).max() > 2e3 * eps:
             chk.fail("not-covariant", f"{method}: simulating in a rotated basis and rotating back differs by {np.abs(back - base).max():.2e}", info)
 
